@@ -55,8 +55,8 @@ class Built:
 
 
 def build_device(avoid_blockram=False, with_bulk=True, bulk_in_ep=1, bulk_out_ep=2, bulk_max=8,
-                 src_packet=5, ep0_max=64):
-    from amaranth import Elaboratable, Module, Signal
+                 src_lengths=(5, 8, 3, 16), ep0_max=64):
+    from amaranth import Elaboratable, Module, Signal, Mux
     from luna.gateware.interface.utmi import UTMIInterface
     from luna.gateware.usb.usb2.device import USBDevice
     from luna.gateware.usb.usb2.control import USBControlEndpoint
@@ -90,6 +90,7 @@ def build_device(avoid_blockram=False, with_bulk=True, bulk_in_ep=1, bulk_out_ep
         dev.add_endpoint(b.bulk_in)
         dev.add_endpoint(b.bulk_out)
     b.bulk_in_ep, b.bulk_out_ep, b.bulk_max = bulk_in_ep, bulk_out_ep, bulk_max
+    b.src_lengths = tuple(src_lengths)
     b.setup_if = b.observer.interface.setup
     b.addr_sig = b.control.interface.active_address
     b.cfg_sig = b.control.interface.active_config
@@ -99,15 +100,20 @@ def build_device(avoid_blockram=False, with_bulk=True, bulk_in_ep=1, bulk_out_ep
             m = Module()
             m.submodules.dev = dev
             if with_bulk:
+                # counter source: `last`-terminated transfers whose lengths cycle through src_lengths - including exact
+                # multiples of the max packet size, after which the endpoint owes the host a zero-length packet
+                from amaranth import Array, Const
+                lens = Array([Const(n, 8) for n in b.src_lengths])
                 cnt = Signal(8)
-                pos = Signal(range(src_packet + 1))
+                pos = Signal(8)
+                sel = Signal(range(len(b.src_lengths)))
                 s = b.bulk_in.stream
                 m.d.comb += [s.valid.eq(b.src_enable), s.payload.eq(cnt), s.first.eq(pos == 0),
-                             s.last.eq(pos == src_packet - 1), b.bulk_out.stream.ready.eq(1)]
+                             s.last.eq(pos == lens[sel] - 1), b.bulk_out.stream.ready.eq(1)]
                 with m.If(s.valid & s.ready):
                     m.d.usb += [cnt.eq(cnt + 1), pos.eq(pos + 1)]
                     with m.If(s.last):
-                        m.d.usb += pos.eq(0)
+                        m.d.usb += [pos.eq(0), sel.eq(Mux(sel == len(b.src_lengths) - 1, 0, sel + 1))]
             return m
 
     b.top = Top()
